@@ -16,7 +16,13 @@ SOURCES = ["find all @/(a)(b)(c)\\3\\2\\1/", "find all @/((a)|b)+c/", "find all 
            # unnamed loops directly inside loops: their ids are drawn one after the other from the process-wide source; whatever other goroutines do in between,
            # the ids of one program must stay distinct
            "find all at least 1 (maybe 'a' 'b')", "find all @/(a*b)+/", "find all between 2 and 3 (at least 1 'a' 'b')", "find all at least 0 (at most 2 (maybe 'a') 'b') 'c'",
-           "find all at least 1 (at least 1 (maybe 'a') 'b' fewest)"]
+           "find all at least 1 (at least 1 (maybe 'a') 'b' fewest)",
+           # process code run by several goroutines on one shared program: transforms and predicates whose bodies end with and without a return, of 1 to 7 statements
+           "set f to transform set a to match set b to a + 'x' if a == 'q' then return b end end\nreplace all letter with f",
+           "set f to transform set a to match set b to a set c to b set d to c if d == 'q' then return a end end\nreplace all digit with f f",
+           "set p to pattern letter begin set a to match set b to a if a == b then return true end end\nfind all p p",
+           "set p to pattern digit begin set a to 1 set b to 2 set c to 3 set d to 4 set e to 5 if match == '1' then return true end end\nset f to transform return match + '!' end\nreplace all p with f",
+           "set f to transform set a to 1 set b to 2 set c to 3 set d to 4 set e to 5 set g to 6 debug g end\nreplace all 'a' with f"]
 TEXTS = ["abccba", "aabc", "12-34", "(())", "aa bb", "xy", "ab-cd", "abbcc", "1-22-", "aabab"]
 
 
